@@ -55,8 +55,9 @@ class Context:
         return self._in_matrix
 
     def exit_matrix(self) -> None:
+        # The block has no names of its own: a routine's parameters and
+        # variables are still needed after it.
         self._in_matrix = False
-        self._locals.clear()
 
     def enter_loop(self) -> None:
         self._loop_stack.append(_LoopContext())
